@@ -63,6 +63,15 @@ type l3Case struct {
 	TimeoutS   int    `json:"timeout_s,omitempty"`
 	ProbeHangs bool   `json:"probe_hangs,omitempty"` // the backend never answers probes
 	Metrics    bool   `json:"metrics_listener,omitempty"`
+	// further optional features of the configuration, drawn on/off with the values of the shipped sample
+	// file (none of them touches a single proxied request: limits far above one request, breaker closed,
+	// plugins that leave status and body alone)
+	Rate    bool `json:"rate_limit,omitempty"`
+	Breaker bool `json:"circuit_breaker,omitempty"`
+	Passive bool `json:"passive_checks,omitempty"`
+	Pool    bool `json:"websocket_pool,omitempty"`
+	Admin   bool `json:"admin_api,omitempty"`
+	Plugins bool `json:"plugins,omitempty"` // logging, request-id, headers
 }
 
 // halfSent is ready at once for the half-sent-head point (nothing can have arrived at the backend
@@ -127,10 +136,16 @@ func genL3(rt *rapid.T) l3Case {
 		}
 	}
 	c.Metrics = rapid.IntRange(0, 3).Draw(rt, "metrics") == 0
+	c.Rate = rapid.Bool().Draw(rt, "rate_limit")
+	c.Breaker = rapid.Bool().Draw(rt, "circuit_breaker")
+	c.Passive = rapid.Bool().Draw(rt, "passive_checks")
+	c.Pool = rapid.Bool().Draw(rt, "websocket_pool")
+	c.Admin = rapid.IntRange(0, 3).Draw(rt, "admin_api") == 0
+	c.Plugins = rapid.Bool().Draw(rt, "plugins")
 	return c
 }
 
-func (c l3Case) yaml(port, metricsPort int, backendURL string) string {
+func (c l3Case) yaml(port, metricsPort, adminPort int, backendURL string) string {
 	var b strings.Builder
 	if c.ShutdownOmitted {
 		// documented default: 30 s
@@ -140,8 +155,29 @@ func (c l3Case) yaml(port, metricsPort int, backendURL string) string {
 	}
 	fmt.Fprintf(&b, "backends:\n  - name: \"b0\"\n    address: \"%s\"\n    weight: 1\n", backendURL)
 	b.WriteString("load_balancer:\n  strategy: \"round_robin\"\n")
+	if c.Pool {
+		b.WriteString("  websocket_pool:\n    enabled: true\n    max_idle: 10\n    max_active: 100\n    idle_timeout_seconds: 300\n")
+	}
+	if c.Active || c.Passive {
+		b.WriteString("health_checks:\n")
+	}
 	if c.Active {
-		fmt.Fprintf(&b, "health_checks:\n  active:\n    enabled: true\n    interval: %d\n    timeout: %d\n    path: \"/healthz\"\n", c.IntervalS, c.TimeoutS)
+		fmt.Fprintf(&b, "  active:\n    enabled: true\n    interval: %d\n    timeout: %d\n    path: \"/healthz\"\n", c.IntervalS, c.TimeoutS)
+	}
+	if c.Passive {
+		b.WriteString("  passive:\n    enabled: true\n    unhealthy_threshold: 3\n    unhealthy_timeout: 30\n")
+	}
+	if c.Rate {
+		b.WriteString("rate_limit:\n  enabled: true\n  max_tokens: 100\n  refill_rate_seconds: 1\n")
+	}
+	if c.Breaker {
+		b.WriteString("circuit_breaker:\n  enabled: true\n  max_requests: 5\n  interval_seconds: 60\n  timeout_seconds: 60\n  failure_threshold: 5\n  success_threshold: 2\n")
+	}
+	if c.Admin {
+		fmt.Fprintf(&b, "admin_api:\n  enabled: true\n  port: %d\n  auth_token: \"change-me\"\n", adminPort)
+	}
+	if c.Plugins {
+		b.WriteString("plugins:\n  enabled: true\n  chain:\n    - name: logging\n    - name: request-id\n    - name: headers\n      config:\n        set:\n          X-App: Helios\n        request_set:\n          X-From: LB\n")
 	}
 	if c.Metrics {
 		fmt.Fprintf(&b, "metrics:\n  enabled: true\n  port: %d\n  path: \"/metrics\"\n", metricsPort)
@@ -207,8 +243,8 @@ func runL3(t testing.TB, c l3Case) (r l3Result) {
 	} else {
 		be.Fallback(&lab.RespScript{Status: 200, Framing: "cl", Body: []byte("ok"), BodyLen: 2, BarrierAfter: -1})
 	}
-	ports := lab.FreePorts(2)
-	h := lab.StartHelios(t, c.yaml(ports[0], ports[1], be.URL()))
+	ports := lab.FreePorts(3)
+	h := lab.StartHelios(t, c.yaml(ports[0], ports[1], ports[2], be.URL()))
 	defer h.Kill()
 	defer func() { r.Log = h.Log() }()
 	if !h.WaitPort(ports[0], stepBudget) || !h.ListensOn(ports[0]) {
@@ -400,7 +436,7 @@ func judgeResponse(c l3Case, out *lab.RawResponse, body []byte) string {
 }
 
 func TestC19Signals(t *testing.T) {
-	sub := lab.Sub(l3Name, "rapid: the real helios binary (timeouts.shutdown 2-4 s, one scripted raw TCP backend, optional metrics listener, active checks off / interval 2-3 s answered / interval 10 s timeout 9 s with probes that hang in the backend) receives SIGTERM or SIGINT "+
+	sub := lab.Sub(l3Name, "rapid: the real helios binary (timeouts.shutdown 2-4 s, one scripted raw TCP backend, optional metrics listener, every further optional feature on or off by draw with the values of the shipped sample file - rate_limit, circuit_breaker, passive checks, websocket_pool, admin_api (1 in 4), a plugin chain [logging, request-id, headers] -, active checks off / interval 2-3 s answered / interval 10 s timeout 9 s with probes that hang in the backend) receives SIGTERM or SIGINT "+
 		"at a drawn point: no request in flight; a request of which only the request line and one header field have been sent (the rest of the head follows 0-500 ms after the signal, the backend answers at once); a request that reached the backend which has not answered (released 0-(timeout-1) s after the signal); a response of whose first body part (1 B-64 KiB) the client has read everything the proxy must have passed on (all of it when chunked, all but 8 KiB when CL-framed) while the backend waits on a barrier before part 2 (1 B-200 kB; CL or chunked; status 200/201/404); "+
 		"1 in 7 requests is never finished by the backend (outlasts the shutdown timeout); 1 in 3 cases sends a second SIGTERM/SIGINT 0-100 ms later, during the shutdown; "+
 		"oracle: the in-flight request is received complete and exact, the process exits within shutdown timeout + 2 s with status 0 (status not asserted for the outlasting request) and no panic trace, the backend sees nothing after the exit; non-trivial = a request is in flight when the signal arrives")
@@ -452,6 +488,17 @@ func TestC19Signals(t *testing.T) {
 			}
 			if c.Metrics {
 				labels = append(labels, "metrics-listener")
+			}
+			for _, f := range []struct {
+				on   bool
+				name string
+			}{{c.Rate, "rate_limit"}, {c.Breaker, "circuit_breaker"}, {c.Passive, "passive_checks"}, {c.Pool, "websocket_pool"}, {c.Admin, "admin_api"}, {c.Plugins, "plugins"}} {
+				if f.on {
+					labels = append(labels, "on="+f.name)
+					if c.Second != "" {
+						labels = append(labels, "second-signal,on="+f.name)
+					}
+				}
 			}
 			if r.Harness == "" && !r.Retry {
 				labels = append(labels, fmt.Sprintf("exit=%d", r.ExitCode))
